@@ -717,7 +717,7 @@ pub fn spec(id: &str, variant: &str, cancelable: bool, thorough: bool) -> Option
                 p_sampled: 0.5,
                 // spans of unsampled traces also travel inside future/stream/sink adapters that
                 // are polled under sampled scopes
-                adapter_kinds: vec![AdapterKind::InSpan, AdapterKind::InSpanEnterOnPoll, AdapterKind::EnterOnPoll, AdapterKind::Stream, AdapterKind::Sink],
+                adapter_kinds: vec![AdapterKind::InSpan, AdapterKind::InSpanEnterOnPoll, AdapterKind::EnterOnPoll, AdapterKind::Stream, AdapterKind::Sink, AdapterKind::TracedBoxed, AdapterKind::TracedBoxed],
                 ..base.clone().set(&[
                     (K::Wrap, 5),
                     (K::Drive, 10),
@@ -753,6 +753,8 @@ pub fn spec(id: &str, variant: &str, cancelable: bool, thorough: bool) -> Option
                 str_classes: 0b0011_1111,
                 templates: vec![(1, Template::PoolHandoff)],
                 pool_pct: 3,
+                // closures passed to the attachment calls may use the tracing API themselves
+                reentrant: true,
                 ..base.clone().set(&[
                     (K::AddPropsH, 10),
                     (K::AddPropsL, 8),
@@ -884,6 +886,8 @@ pub fn spec(id: &str, variant: &str, cancelable: bool, thorough: bool) -> Option
                 threads: (1, 2),
                 ops: (0, 24),
                 max_spin_us: 300,
+                // a scope filled to its limit: spans closed (and time spent) afterwards
+                templates: vec![(1, Template::ScopeFull)],
                 // spans bound to futures end when the future completes (or is dropped earlier)
                 adapter_kinds: vec![AdapterKind::InSpan, AdapterKind::InSpanEnterOnPoll],
                 ..base.clone().set(&[
@@ -988,7 +992,7 @@ pub fn spec(id: &str, variant: &str, cancelable: bool, thorough: bool) -> Option
             let c13 = id == "C13";
             let sched = v_ == "sched";
             let kinds = if c13 {
-                vec![AdapterKind::InSpan, AdapterKind::InSpan, AdapterKind::EnterOnPoll, AdapterKind::InSpanEnterOnPoll]
+                vec![AdapterKind::InSpan, AdapterKind::InSpan, AdapterKind::EnterOnPoll, AdapterKind::InSpanEnterOnPoll, AdapterKind::TracedBoxed]
             } else {
                 vec![AdapterKind::Stream, AdapterKind::Stream, AdapterKind::Sink, AdapterKind::Sink, AdapterKind::DuplexViaStream, AdapterKind::DuplexViaSink]
             };
